@@ -191,6 +191,7 @@ structure St where
   known : List Path := [[]]
   world : String := ""
   contents : List (String × Bytes) := []
+  chunks : List Bytes := []     -- pieces of a long content, last first
   op : Option Op := none
   P : Program := program
   crashStates : Nat := 0
@@ -318,6 +319,9 @@ def onLine (st : St) (n : Nat) (l : String) : IO St := do
       return { st with fs := fileDurable st.fs q d, known := st.known ++ (prefixes (parentOf q)).filter (fun x => !st.known.contains x) }
     | _, _ => st.bad n s!"bad prep file {p} {cid}"
   | ["def", id, "hex", h] => return { st with contents := (id, unhex h) :: st.contents }
+  | ["defc", h] => return { st with chunks := unhex h :: st.chunks }
+  | ["def", id, "cat"] =>
+    return { st with contents := (id, st.chunks.foldl (fun acc c => c ++ acc) []) :: st.contents, chunks := [] }
   | ["def", id, "take", base, k] =>
     match st.content base, k.toNat? with
     | some b, some k => return { st with contents := (id, b.take k) :: st.contents }
